@@ -53,6 +53,7 @@ def run_failing(
     with_handler: bool = False,
     max_actions: int = 200,
     queue_wait: float = 0.0,
+    busy_block: float = 0.0,
 ) -> RetryObs:
     """``exc_for_attempt(i)`` (i = 0,1,..) gives the exception attempt i raises, or None to succeed."""
     obs = RetryObs()
@@ -66,13 +67,14 @@ def run_failing(
         async def feeder(self, ctx, ev, inv):  # noqa: ANN001
             # the failing event has to wait in the step queue behind another event that occupies the
             # only worker for ``queue_wait`` seconds
-            ctx.send_event(Work(uid=0))
+            if not busy_block:
+                ctx.send_event(Work(uid=0))
             ctx.send_event(Work(uid=1))
             return None
 
         async def start(self, ctx, ev, inv):  # noqa: ANN001
-            if queue_wait and getattr(ev, "uid", 1) == 0:
-                await asyncio.sleep(queue_wait)
+            if (queue_wait or busy_block) and getattr(ev, "uid", 1) == 0:
+                await asyncio.sleep(queue_wait or busy_block)
                 return None
             i = counter["n"]
             counter["n"] += 1
@@ -85,10 +87,14 @@ def run_failing(
             if exc is not None:
                 att.t_fail = loop.vt
                 att.raised = exc
+                if busy_block:
+                    # a blocker takes the step's only worker as soon as this attempt has failed, so the retry
+                    # comes due while the worker is busy and has to wait in the step queue
+                    ctx.send_event(Work(uid=0))
                 raise exc
             return StopEvent(result="ok")
 
-        if queue_wait:
+        if queue_wait or busy_block:
             steps = [make_step("feeder", [StartEvent], [Work, None], feeder, track=False),
                      make_step("start", [Work], [StopEvent, None], start, retry_policy=policy, track=False, num_workers=1)]
         else:
